@@ -22,6 +22,11 @@
 //	                Transaction, BlockHeader ...) nor instantiated by a function reachable from block execution
 //	                (per-execution objects). This is process-local memo state: a cache added to
 //	                RewardCalculator, MinerManager, an executor ... is a new site.
+//	process-global-read  read of mutable process-wide state: a call of one of package common's readers of the
+//	                node's head height / network configuration (GetBlockHeight, IsProposalNNN, IsSub, IsMainnet,
+//	                ...: detail "common.<name>"), or a read of a package-level VARIABLE of the module whose type is
+//	                a value (basic, struct, array, map, slice - not the singleton pointers, loggers, interfaces
+//	                and funcs, and not error values). One site per (function, name).
 //	local-store-result-used  a value or error RETURNED by a node-local store is used (assigned, tested,
 //	                returned - anything but a bare call statement): (a) a method of a type of middleware/db
 //	                (LevelDB handles opened with db.NewDatabase/NewLDBDatabase), database/sql, or a function of
@@ -83,6 +88,9 @@ var mutatingName = map[string]bool{"Add": true, "Set": true, "Store": true, "Put
 	"PushBack": true, "PushFront": true, "Purge": true, "LoadOrStore": true, "LoadAndDelete": true, "ContainsOrAdd": true, "PeekOrAdd": true,
 	"Swap": true, "CompareAndSwap": true, "Insert": true, "Pop": true, "RemoveOldest": true, "Resize": true, "Reset": true, "Clear": true,
 	"Inc": true, "Dec": true, "Write": true, "WriteString": true}
+
+// package common's readers of the node's head height and network configuration
+var processReader = regexp.MustCompile(`^(GetBlockHeight|IsProposal\d+|IsSub|IsMainnet|IsRobin|IsDEV|IsFullNode|GetRewardBlocks|GetRefundBlocks|GetBlocksPerEpoch|ChainId|GetChainId|NetworkId|MainNodeContract)$`)
 
 // read methods of foreign containers
 var readName = map[string]bool{"Get": true, "Load": true, "Peek": true, "Contains": true, "Has": true, "Len": true, "Keys": true, "Front": true,
@@ -495,6 +503,13 @@ func Scan(repo string) ([]Site, Stats, error) {
 			}
 			x.sites = append(x.sites, Site{x.file, x.name, kind, detail})
 		}
+		once := map[string]bool{}
+		addOnce := func(kind, detail string) {
+			if !once[kind+"|"+detail] {
+				once[kind+"|"+detail] = true
+				x.sites = append(x.sites, Site{x.file, x.name, kind, detail})
+			}
+		}
 		qual := func(p *types.Package) string { return p.Name() }
 		short := func(e ast.Expr) string {
 			s := types.ExprString(e)
@@ -520,6 +535,8 @@ func Scan(repo string) ([]Site, Stats, error) {
 					add("time", "utility.GetTime")
 				case pp == "math/rand" || pp == "math/rand/v2" || pp == "crypto/rand":
 					add("rand", pp+"."+f.Name())
+				case pp == Module+"/src/common" && sig != nil && sig.Recv() == nil && processReader.MatchString(f.Name()):
+					addOnce("process-global-read", "common."+f.Name())
 				}
 			}
 			if full == "(*sync.Map).Range" && sel != nil {
@@ -835,6 +852,15 @@ func Scan(repo string) ([]Site, Stats, error) {
 			if id, ok := n.(*ast.Ident); ok {
 				if f, ok := x.info.Uses[id].(*types.Func); ok {
 					useFunc(f, callFun[id], selOf[id])
+				}
+				if o := x.info.Uses[id]; o != nil && isModuleGlobal(o) {
+					isErr := types.Identical(o.Type(), types.Universe.Lookup("error").Type())
+					switch o.Type().Underlying().(type) {
+					case *types.Basic, *types.Struct, *types.Array, *types.Map, *types.Slice:
+						if !isErr {
+							addOnce("process-global-read", qual(o.Pkg())+"."+o.Name())
+						}
+					}
 				}
 			}
 			return true
